@@ -196,6 +196,23 @@ def main(tier, only_replay=None):
     if not thorough:
         toks = toks[sd % 7::7]
     fixtures.validate_tree_traces(chk, limit=None if thorough else 400, extra_inputs=toks)
+    # 5. the placement rule is applied once more when PASTE is expanded: what a macro brings into an open parenthesis is
+    #    placed like written lines - a method with a path of its own cannot leave the parenthesis.  Pairs (lines written
+    #    in place, the same lines pasted from a macro): if the scan stage rejects the written lines for their context, the
+    #    pasted ones must not be accepted
+    import c07
+    pp = [(nm, inl, mcr) for nm, inl, mcr in c07.twice_pairs() if nm.startswith("paste_in_")]
+    pobs = harness("run", [{"id": "pi%d" % k, "files": {"main.jst": b64(inl)}, "root": "main.jst"} for k, (nm, inl, mcr) in enumerate(pp)] +
+                   [{"id": "pm%d" % k, "files": {"main.jst": b64(mcr)}, "root": "main.jst"} for k, (nm, inl, mcr) in enumerate(pp)])
+    for k, (nm, inl, mcr) in enumerate(pp):
+        a, b = pobs["pi%d" % k], pobs["pm%d" % k]
+        chk.evaluations += 1
+        chk.traces += 1
+        chk.nontrivial.add("paste:" + nm)
+        if a["outcome"] == "error" and "scan" not in a["stages"] and b["outcome"] == "ok":
+            sig = {"devs": "none", "matches_impl": "no", "what": "pasted lines leave an open parenthesis"}
+            chk.violation("the lines written in place are rejected by the scan stage (%r) but the same lines pasted from a macro are accepted (%s) | macro form:\n%s" % (
+                a["err"]["msg"], nm, mcr), {"kind": "paste_pair", "name": nm, "inlined": inl, "macro_form": mcr, "signature": sig}, sig)
     chk.rule = ("documents = TLC-emitted symbol sequences (keyword kind, path flag, '(' , ')'): one per sampled "
                 "(reachable state, symbol) pair of the closed graph, all sequences up to the bound, random walks "
                 "to length 40; distinct = distinct symbol sequences; every one has >= 1 placement decision")
@@ -210,5 +227,12 @@ def main(tier, only_replay=None):
 def replay(path):
     rp = json.load(open(path))["replay"]
     chk = Check("C06", "quick")
+    if rp.get("kind") == "paste_pair":
+        o = harness("run", [{"id": "a", "files": {"main.jst": b64(rp["inlined"])}, "root": "main.jst"},
+                            {"id": "b", "files": {"main.jst": b64(rp["macro_form"])}, "root": "main.jst"}])
+        chk.evaluations = 1
+        if o["a"]["outcome"] == "error" and "scan" not in o["a"]["stages"] and o["b"]["outcome"] == "ok":
+            chk.violation("reproduced", rp, rp.get("signature"))
+        return chk.finish()
     run_docs(chk, [{"doc": rp["doc"], "out": rp["expected"], "nl": rp.get("nl", "\n"), "impl": {"v": "", "at": 0, "par": [], "devs": []}}], "r")
     return chk.finish()
